@@ -1,3 +1,155 @@
 import GnpyModel
-/- Property theorems for C12 (only the property theorems and their non-vacuity examples live here;
-   helper lemmas go to GnpyProofs/Lemmas). -/
+import GnpyProofs.Lemmas.Route
+import GnpyProofs.Lemmas.Disjoint
+import GnpyProofs.Props.C11
+/- Property theorems for C12 — requests declared disjoint never share a link in either direction.
+   Model: GnpyModel/Route.lean (`LinkDisjoint`, `isdisjointPy`, `shortOf`, `revChain`, `disjointOracle`, steps 2-5 of
+   `compute_path_dsjctn` over abstract candidates). -/
+namespace Gnpy.Route
+
+/-- the checker run on the returned paths decides the disjointness predicate of the property -/
+theorem linkDisjoint_checker (isRoadm : V → Bool) (p q : List V) :
+    linkDisjointB isRoadm p q = true ↔ LinkDisjoint isRoadm p q :=
+  linkDisjointB_iff isRoadm p q
+
+/-- a whole group: the Boolean is `true` exactly when the paths are pairwise link-disjoint -/
+theorem allDisjoint_checker (isRoadm : V → Bool) (ps : List (List V)) :
+    allDisjointB isRoadm ps = true ↔ ps.Pairwise (LinkDisjoint isRoadm) :=
+  allDisjointB_iff isRoadm ps
+
+/-- sharing a link "in either direction" is a symmetric relation (so testing each new path against the paths already
+chosen, as step 2 does, is enough) -/
+theorem linkDisjoint_symm (isRoadm : V → Bool) (p q : List V) (h : LinkDisjoint isRoadm p q) :
+    LinkDisjoint isRoadm q p := by
+  intro l hl
+  constructor
+  · intro hlp; exact (h l hlp).1 hl
+  · intro hlp
+    have := (h (l.2, l.1) hlp).2
+    exact this (by simpa using hl)
+
+/-- **`isdisjoint` is the right test (OMS level).**  For two paths crossing the OMS chains `c1`, `c2`, the sum the code
+computes in step 2, `isdisjoint(short(p1), short(p2)) + isdisjoint(short(reversed p1), short(p2))`, is 0 exactly when
+no OMS of `p1` and no reversed OMS of `p1` is crossed by `p2`. -/
+theorem linkDisjoint_iff (rev : Oms → Oms) (c1 c2 : List Oms) (h1 : Adjacent c1) (h2 : Adjacent c2)
+    (hr : RevOk rev c1) (hs : Separated c1 c2) (hs' : Separated (revChain rev c1) c2) :
+    isdisjointPy (shortOf c1) (shortOf c2) + isdisjointPy (shortOf (revChain rev c1)) (shortOf c2) = 0 ↔
+      ∀ o ∈ c1, o ∉ c2 ∧ rev o ∉ c2 := by
+  have ha := isdisjoint_chain_iff c1 c2 h1 h2 hs
+  have hb := isdisjoint_chain_iff (revChain rev c1) c2 (adjacent_revChain rev c1 h1 hr) h2 hs'
+  rw [Nat.add_eq_zero_iff, ha, hb]
+  constructor
+  · rintro ⟨hx, hy⟩ o ho
+    exact ⟨hx o ho, hy (rev o) ((mem_revChain rev c1 _).2 ⟨o, ho, rfl⟩)⟩
+  · intro h
+    refine ⟨fun o ho => (h o ho).1, ?_⟩
+    intro x hx
+    obtain ⟨o, ho, rfl⟩ := (mem_revChain rev c1 x).1 hx
+    exact (h o ho).2
+
+/-- the ROADM-to-ROADM links of a chain -/
+def linksC (c : List Oms) : List (V × V) := c.map (fun o => (o.src, o.dst))
+
+/-- in a parallel-free network (one OMS per ordered ROADM pair, `rev` the OMS of the opposite pair) "no common OMS and
+no common reversed OMS" is "no common ROADM-to-ROADM link, a link and its opposite identified" -/
+theorem oms_disjoint_iff_links (rev : Oms → Oms) (c1 c2 : List Oms) (hr : RevOk rev c1)
+    (hpar : ∀ o ∈ c1, ∀ o' ∈ c2, (o.src = o'.src → o.dst = o'.dst → o = o') ∧
+                                  (o.dst = o'.src → o.src = o'.dst → rev o = o')) :
+    (∀ o ∈ c1, o ∉ c2 ∧ rev o ∉ c2) ↔ ∀ l ∈ linksC c1, l ∉ linksC c2 ∧ (l.2, l.1) ∉ linksC c2 := by
+  unfold linksC
+  constructor
+  · intro h l hl
+    obtain ⟨o, ho, rfl⟩ := List.mem_map.1 hl
+    constructor
+    · intro hm
+      obtain ⟨o', ho', he⟩ := List.mem_map.1 hm
+      simp only [Prod.mk.injEq] at he
+      have := (hpar o ho o' ho').1 he.1.symm he.2.symm
+      exact (h o ho).1 (this ▸ ho')
+    · intro hm
+      obtain ⟨o', ho', he⟩ := List.mem_map.1 hm
+      simp only [Prod.mk.injEq] at he
+      have := (hpar o ho o' ho').2 he.1.symm he.2.symm
+      exact (h o ho).2 (this ▸ ho')
+  · intro h o ho
+    have hl := h (o.src, o.dst) (List.mem_map.2 ⟨o, ho, rfl⟩)
+    constructor
+    · intro hm; exact hl.1 (List.mem_map.2 ⟨o, hm, rfl⟩)
+    · intro hm
+      refine hl.2 (List.mem_map.2 ⟨rev o, hm, ?_⟩)
+      simp [(hr o ho).1, (hr o ho).2]
+
+/-- the ROADMs met along an adjacent chain pair up into exactly its links: for a path `p` whose ROADMs are
+`sitesOf c`, `linksOf isRoadm p = linksC c` -/
+theorem zip_sites : ∀ c : List Oms, Adjacent c → (sitesOf c).zip (sitesOf c).tail = linksC c
+  | [], _ => by simp [sitesOf, linksC]
+  | [o], _ => by simp [sitesOf, linksC]
+  | o :: o' :: rest, h => by
+    have hadj : o.dst = o'.src := (List.isChain_cons_cons.1 h).1
+    have ih := zip_sites (o' :: rest) (List.isChain_cons_cons.1 h).2
+    simp only [sitesOf, List.map_cons, List.tail_cons, List.zip_cons_cons, linksC] at ih ⊢
+    rw [hadj]
+    simp [ih]
+
+theorem linksOf_of_sites (isRoadm : V → Bool) (p : List V) (c : List Oms) (hc : Adjacent c)
+    (hp : p.filter isRoadm = sitesOf c) : linksOf isRoadm p = linksC c := by
+  unfold linksOf
+  simp only [hp]
+  exact zip_sites c hc
+
+/-- **C12, the implementation's test means the property's relation.**  `p1`, `p2` element paths crossing the adjacent
+OMS chains `c1`, `c2` of a parallel-free network: the step-2 sum is 0 exactly when the paths have no ROADM-to-ROADM link
+in common, a link and its opposite direction counted as the same. -/
+theorem isdisjoint_test_iff_linkDisjoint (isRoadm : V → Bool) (rev : Oms → Oms) (p1 p2 : List V) (c1 c2 : List Oms)
+    (h1 : Adjacent c1) (h2 : Adjacent c2) (hp1 : p1.filter isRoadm = sitesOf c1) (hp2 : p2.filter isRoadm = sitesOf c2)
+    (hr : RevOk rev c1) (hs : Separated c1 c2) (hs' : Separated (revChain rev c1) c2)
+    (hpar : ∀ o ∈ c1, ∀ o' ∈ c2, (o.src = o'.src → o.dst = o'.dst → o = o') ∧
+                                  (o.dst = o'.src → o.src = o'.dst → rev o = o')) :
+    isdisjointPy (shortOf c1) (shortOf c2) + isdisjointPy (shortOf (revChain rev c1)) (shortOf c2) = 0 ↔
+      LinkDisjoint isRoadm p1 p2 := by
+  rw [linkDisjoint_iff rev c1 c2 h1 h2 hr hs hs', oms_disjoint_iff_links rev c1 c2 hr hpar]
+  unfold LinkDisjoint
+  rw [linksOf_of_sites isRoadm p1 c1 h1 hp1, linksOf_of_sites isRoadm p2 c2 h2 hp2]
+
+/-- **the pair oracle means what the property says**: `disjointOracle = true` exactly when there are two routes (of at
+most 80 hops, the documented cut-off), one per request, each honouring its include list unless that list is all-LOOSE,
+with no link in common in either direction -/
+theorem disjointOracle_iff (g : Graph) (hg : g.WF) (isRoadm : V → Bool) (r1 r2 : Req) :
+    disjointOracle g isRoadm r1 r2 = true ↔
+      ∃ p q, IsRoute g r1.s r1.t [] p ∧ p.length ≤ 81 ∧ (r1.strict = true → r1.inc.Sublist p) ∧
+             IsRoute g r2.s r2.t [] q ∧ q.length ≤ 81 ∧ (r2.strict = true → r2.inc.Sublist q) ∧
+             LinkDisjoint isRoadm p q := by
+  have hmem : ∀ s t p, p ∈ candPaths g s t ↔ IsRoute g s t [] p ∧ p.length ≤ 81 := by
+    intro s t p
+    unfold candPaths
+    rw [List.mem_filter, ← validPaths_iff g hg s t [] p]
+    unfold validPaths
+    simp [List.mem_filter]
+  have hacc : ∀ (r : Req) p, acceptable r p = true ↔ (r.strict = true → r.inc.Sublist p) := by
+    intro r p
+    unfold acceptable
+    rw [Bool.or_eq_true, List.isSublist_iff_sublist]
+    cases r.strict <;> simp
+  unfold disjointOracle
+  simp only [List.any_eq_true, Bool.and_eq_true, hmem, hacc, linkDisjointB_iff]
+  constructor
+  · rintro ⟨p, ⟨hp, hpl⟩, hpa, q, ⟨hq, hql⟩, hqa, hd⟩
+    exact ⟨p, q, hp, hpl, hpa, hq, hql, hqa, hd⟩
+  · rintro ⟨p, q, hp, hpl, hpa, hq, hql, hqa, hd⟩
+    exact ⟨p, ⟨hp, hpl⟩, hpa, q, ⟨hq, hql⟩, hqa, hd⟩
+
+/-! ### non-vacuity: two ROADM triangles' worth of OMS -/
+
+def oAB : Oms := ⟨0, 10, 1⟩
+def oBA : Oms := ⟨1, 11, 0⟩
+def oBC : Oms := ⟨1, 12, 2⟩
+def oCB : Oms := ⟨2, 13, 1⟩
+def demoRev (o : Oms) : Oms := if o = oAB then oBA else if o = oBA then oAB else if o = oBC then oCB else oBC
+
+example : Adjacent [oAB, oBC] ∧ RevOk demoRev [oAB, oBC] ∧ Separated [oAB, oBC] [oCB, oBA] := by
+  refine ⟨by unfold Adjacent; decide, by unfold RevOk; decide, by unfold Separated; decide⟩
+example : isdisjointPy (shortOf [oAB, oBC]) (shortOf [oCB, oBA]) = 0 := by decide
+example : isdisjointPy (shortOf (revChain demoRev [oAB, oBC])) (shortOf [oCB, oBA]) = 1 := by decide
+example : sitesOf [oAB, oBC] = [0, 1, 2] ∧ linksC [oAB, oBC] = [(0, 1), (1, 2)] := by decide
+
+end Gnpy.Route
